@@ -185,3 +185,86 @@ Theorem C14_source_examples :
   src_compression_type 2048 = Err U3VTables.CE_INVALID_DEVICE.
 Proof. exact file_examples. Qed.
 Print Assumptions C14_source_examples.
+
+(* ---- TIE TO THE SOURCE CODE: the retrieval itself, translated --------------------------------------------------------
+   gen/XmlFetchSrc.v is regenerated on every run by tools/translate_xmlfetch.py from cameleon/src/u3v/control_handle.rs
+   (DeviceControl::genapi with its local zip_err, ControlHandle::verify_xml) and cameleon/src/u3v/register_map.rs
+   (ManifestTable::{new, entries, read_register}, ManifestEntry::{new, file_info, genicam_file_version, file_address,
+   file_size, sha1_hash, read_register}): a STATEMENT-level translation into the X monad of model/XmlFetch.v over the
+   operation vocabulary model/XfOps.v (`?` / unwrap_or_log! = bind, `let mut` / assignment = rebinding, the `for` loop
+   over `(0..entry_num).map(move |i| ManifestEntry::new(first_entry_addr + i * 64))` = xf_for_range with the closure
+   evaluated when the item is pulled, debug-build u64 arithmetic), re-using the translated decoders of
+   gen/DecodersSrc.v.  Computations are compared pointwise (for every state = handle + device world); the only
+   hypotheses are that a table / entry address is not negative (it is a u64).  proofs/P_C14x.v. *)
+From Cam Require Import XfOps XmlFetchSrc P_C14x.
+
+(* ManifestTable::entries: same device accesses in the same order, the same validation of the last entry's address
+   against the 64-bit address space with the same error; the iterator it returns is the range 0..entry_num with the
+   captured first entry address ([iter_of (first, n) = (0, n, first)]) *)
+Theorem C14_entries_from_source : forall t s, 0 <= t ->
+  src_ManifestTable_entries t s = xbind (entries t) (fun fe => xret (iter_of fe)) s.
+Proof. exact entries_from_source. Qed.
+Print Assumptions C14_entries_from_source.
+
+(* the body of `for ent in ..` (file_info first, file_type: DeviceXml -> read the version and keep the entry unless the
+   current candidate's version is >= (ties keep the EARLIER entry), BufferXml -> skip, anything else -> InvalidDevice)
+   and the whole loop, for any number of entries *)
+Theorem C14_selection_from_source :
+  (forall ent nw s, src_ControlHandle_genapi_loop0_body ent nw s = scan_entry ent nw s) /\
+  (forall first n nw s, 0 <= first ->
+     src_ControlHandle_genapi_loop0 0 n first nw s = scan (Z.to_nat n) first 0 nw s).
+Proof. exact selection_from_source_all. Qed.
+Print Assumptions C14_selection_from_source.
+
+(* what follows the loop: no candidate -> InvalidDevice; file_address, file_size (u64 -> usize), compression_type,
+   the buffer of file_size bytes (capacity-overflow panic from 2^63), one read, the buffer capacity restored,
+   verify_xml, Zip (every zip failure and "not exactly one file" through zip_err = InvalidDevice) / Uncompressed,
+   from_utf8_lossy; and verify_xml on its own (hash absent = all zero; mismatch -> InvalidDevice) *)
+Theorem C14_fetch_from_source : forall sha1 unzip,
+  (forall xml ent s, src_ControlHandle_verify_xml sha1 xml ent s = verify_xml sha1 xml ent s) /\
+  (forall nw s, src_ControlHandle_genapi_after0 sha1 unzip nw s =
+                match nw with None => xfail CE_INVALID_DEVICE s | Some sel => fetch sha1 unzip sel s end).
+Proof. exact fetch_from_source_all. Qed.
+Print Assumptions C14_fetch_from_source.
+
+(* the translated genapi as a whole is the model's, in every state in which the manifest table address the handle
+   obtains (cached, or ABRM 0x1D0) is not negative *)
+Theorem C14_genapi_from_source : forall sha1 unzip s,
+  (forall t s1, manifest_table s = (Ok t, s1) -> 0 <= t) ->
+  src_ControlHandle_genapi sha1 unzip s = genapi sha1 unzip s.
+Proof. exact genapi_from_source. Qed.
+Print Assumptions C14_genapi_from_source.
+
+(* hence C14_selects_newest holds of the TRANSLATED loop: on a device that may fail but does not lie it never panics,
+   and when it completes the candidate is the DeviceXml entry whose version is maximal, the first among equals *)
+Theorem C14_selection_of_source :
+  forall (good : st -> Prop) segs t es (xs : xst) r xs',
+  honest_reads good -> good (snd xs) -> w_segs (snd (snd xs)) = segs -> entries_at segs (t + 8) es -> 0 <= t + 8 ->
+  src_ControlHandle_genapi_loop0 0 (zlen es) (t + 8) None xs = (r, xs') ->
+  r <> Panic /\
+  forall nw, r = Ok nw ->
+    Forall valid_type es /\
+    match nw with
+    | Some (a, v, inf) =>
+      exists i e, newest_at es i e /\ a = t + 8 + Z.of_nat i * 64 /\ v = vkey e /\ inf = me_info e
+    | None => forall e, In e es -> ~ is_dev e
+    end.
+Proof. exact selection_of_source. Qed.
+Print Assumptions C14_selection_of_source.
+
+(* non-vacuity (vm_compute): the translated genapi on the device of ex_newest returns the newest document; a file
+   flagged as zip that is not an archive is InvalidDevice; a one-file archive is unpacked *)
+Theorem C14_retrieval_source_example :
+  fst (src_ControlHandle_genapi fake_sha1 (fun _ => None)
+         (opened (wit_world (le_bytes 8 3 ++ mk_entry 16777471 0 262144 10 (fake_sha1 doc_a)
+                                           ++ mk_entry 16777472 0 262656 10 (fake_sha1 doc_b)
+                                           ++ mk_entry 150994944 1 262144 10 (repeat 0 20))
+                            [(262144, doc_a); (262656, doc_b)]))) = Ok doc_b /\
+  fst (src_ControlHandle_genapi fake_sha1 (fun _ => None)
+         (opened (wit_world (le_bytes 8 1 ++ mk_entry 16777216 1024 262144 10 (repeat 0 20)) [(262144, doc_a)])))
+    = Err CE_INVALID_DEVICE /\
+  fst (src_ControlHandle_genapi fake_sha1 (fun bs => Some [Some (tl bs)])
+         (opened (wit_world (le_bytes 8 1 ++ mk_entry 16777216 1024 262144 10 (repeat 0 20)) [(262144, doc_a)])))
+    = Ok (tl doc_a).
+Proof. exact ex_newest_src. Qed.
+Print Assumptions C14_retrieval_source_example.
